@@ -26,6 +26,12 @@ type c12Case struct {
 	Bounds bool  `json:"bounds,omitempty"` // call Bounds()
 	Quad   bool  `json:"quad,omitempty"`   // quadrature observables
 	Sorted bool  `json:"sorted,omitempty"` // Sample.Sorted (only on ascending Xs): must not change any result
+	// object history: the SAME *KDE value is first configured and evaluated as each of Pre (field
+	// assignments, a few PDF/CDF/Bounds calls, results compared in those stages' own cases), then
+	// reconfigured by field assignment as this case.  Pre of the stages themselves is ignored.
+	Pre       []c12Case `json:"pre,omitempty"`
+	KeepH     bool      `json:"keeph,omitempty"`     // do not assign Bandwidth: keep what the object holds (e.g. the lazily filled value)
+	Overwrite bool      `json:"overwrite,omitempty"` // new sample written into the previous Sample.Xs backing array (same length only)
 }
 
 func c12Kernel(k int) stats.KDEKernel {
@@ -38,40 +44,38 @@ func c12Kernel(k int) stats.KDEKernel {
 	return stats.EpanechnikovKernel
 }
 
-func c12Run(raw []byte) (*Line, error) {
-	var c c12Case
-	if err := json.Unmarshal(raw, &c); err != nil {
-		return nil, err
-	}
+// c12Check validates one configuration (h = the Bandwidth the object will hold before the
+// first call) and returns its decoded sample and (sorted) points.
+func c12Check(c c12Case, h float64) ([]float64, []float64, []float64, error) {
 	xs := fromF64s(c.Xs)
 	var ws []float64
 	if c.HasW {
 		ws = fromF64s(c.Ws)
 		if len(ws) != len(xs) {
-			return nil, fmt.Errorf("len(ws) != len(xs)")
+			return nil, nil, nil, fmt.Errorf("len(ws) != len(xs)")
 		}
 		for _, w := range ws {
 			if !(w > 0) {
-				return nil, fmt.Errorf("weights must be positive")
+				return nil, nil, nil, fmt.Errorf("weights must be positive")
 			}
 		}
 	} else if len(c.Ws) != 0 {
-		return nil, fmt.Errorf("weights without hasw")
+		return nil, nil, nil, fmt.Errorf("weights without hasw")
 	}
 	pts := fromF64s(c.Pts)
-	h, bmin, bmax := float64(c.H), float64(c.Bmin), float64(c.Bmax)
+	bmin, bmax := float64(c.Bmin), float64(c.Bmax)
 	if !allFinite(xs) || !allFinite(ws) || !allFinite(pts) || len(xs) > 200 || len(pts) > 400 {
-		return nil, fmt.Errorf("non-finite input or too large")
+		return nil, nil, nil, fmt.Errorf("non-finite input or too large")
 	}
 	if c.Kernel < 0 || c.Kernel > 2 || c.First < 0 || c.First > 2 {
-		return nil, fmt.Errorf("bad kernel/first")
+		return nil, nil, nil, fmt.Errorf("bad kernel/first")
 	}
 	if math.IsNaN(h) || math.IsInf(h, 0) || h < 0 {
-		return nil, fmt.Errorf("bandwidth must be finite and >= 0")
+		return nil, nil, nil, fmt.Errorf("bandwidth must be finite and >= 0")
 	}
 	if math.IsNaN(bmin) || math.IsNaN(bmax) || math.IsInf(bmin, 1) || math.IsInf(bmax, -1) ||
 		(math.IsInf(bmin, -1) && math.IsInf(bmax, 1)) {
-		return nil, fmt.Errorf("boundary configuration outside the property")
+		return nil, nil, nil, fmt.Errorf("boundary configuration outside the property")
 	}
 	bc := bmin != 0 || bmax != 0
 	both := bc && !math.IsInf(bmin, -1) && !math.IsInf(bmax, 1)
@@ -81,35 +85,111 @@ func c12Run(raw []byte) (*Line, error) {
 	}
 	if bc {
 		if !(bmin < bmax) {
-			return nil, fmt.Errorf("empty support [BoundaryMin, BoundaryMax): outside the property")
+			return nil, nil, nil, fmt.Errorf("empty support [BoundaryMin, BoundaryMax): outside the property")
 		}
 		if len(xs) > 0 && (xmin < bmin || xmax > bmax) {
-			return nil, fmt.Errorf("data outside the boundaries")
+			return nil, nil, nil, fmt.Errorf("data outside the boundaries")
 		}
 	}
 	if both && h == 0 && ws == nil && c12ScottDegenerate(xs) {
 		// Scott's rule gives Bandwidth 0 (StdDev or IQR is 0): outside the property (positive
 		// bandwidth), and the image series of the doubly bounded estimate then sums NaN terms
 		// for ever (series stops only when the partial sum stops changing)
-		return nil, fmt.Errorf("lazy bandwidth would be 0 for this sample with a double boundary: outside the property, PDF/CDF do not return")
+		return nil, nil, nil, fmt.Errorf("lazy bandwidth would be 0 for this sample with a double boundary: outside the property, PDF/CDF do not return")
 	}
 	callBounds := c.Bounds || c.First == 2
 	if len(xs) == 0 && (both || callBounds || h == 0 || c.Quad) {
-		return nil, fmt.Errorf("empty sample: only PDF/CDF without double boundary")
+		return nil, nil, nil, fmt.Errorf("empty sample: only PDF/CDF without double boundary")
 	}
 	if both && h > 0 && bmax > bmin && h/(2*(bmax-bmin)) > 200 {
-		return nil, fmt.Errorf("image series too long")
+		return nil, nil, nil, fmt.Errorf("image series too long")
 	}
 	// (Scott's bandwidth is at most 1.06 * StdDev <= 1.06 * range: a scale-free bound)
 	if both && h == 0 && bmax > bmin && len(xs) > 0 && 1.06*(xmax-xmin)/(2*(bmax-bmin)) > 20 {
-		return nil, fmt.Errorf("image series too long (lazy bandwidth)")
+		return nil, nil, nil, fmt.Errorf("image series too long (lazy bandwidth)")
 	}
 	sort.Float64s(pts)
 	if c.Sorted && !sort.Float64sAreSorted(xs) {
-		return nil, fmt.Errorf("Sorted flag on data that is not ascending: outside the property")
+		return nil, nil, nil, fmt.Errorf("Sorted flag on data that is not ascending: outside the property")
 	}
 
-	sample := stats.Sample{Xs: xs, Weights: ws, Sorted: c.Sorted}
+	return xs, ws, pts, nil
+}
+
+// c12Configure puts the configuration c on the object by FIELD ASSIGNMENT (the way a caller
+// re-uses a KDE value) and returns the Bandwidth the object holds before the next call.
+func c12Configure(kde *stats.KDE, c c12Case) (h float64, xs, ws, pts []float64, err error) {
+	h = float64(c.H)
+	if c.KeepH {
+		h = kde.Bandwidth
+	}
+	xs, ws, pts, err = c12Check(c, h)
+	if err != nil {
+		return
+	}
+	if c.Overwrite && len(kde.Sample.Xs) == len(xs) && len(xs) > 0 {
+		copy(kde.Sample.Xs, xs) // same backing array, new values
+		xs = kde.Sample.Xs
+	}
+	kde.Sample = stats.Sample{Xs: xs, Weights: ws, Sorted: c.Sorted}
+	kde.Kernel = c12Kernel(c.Kernel)
+	if !c.KeepH {
+		kde.Bandwidth = h
+	}
+	kde.BoundaryMin, kde.BoundaryMax = float64(c.Bmin), float64(c.Bmax)
+	return
+}
+
+// c12Exercise evaluates a prelude stage on the object (observations are compared in the
+// stage's own case).
+func c12Exercise(kde *stats.KDE, c c12Case, pts []float64) {
+	if c.First == 2 || c.Bounds {
+		catch(func() { kde.Bounds() })
+	}
+	for i, x := range pts {
+		if i >= 6 {
+			break
+		}
+		if c.First == 1 {
+			catch(func() { kde.CDF(x) })
+			catch(func() { kde.PDF(x) })
+		} else {
+			catch(func() { kde.PDF(x) })
+			catch(func() { kde.CDF(x) })
+		}
+	}
+}
+
+func c12Run(raw []byte) (*Line, error) {
+	var c c12Case
+	if err := json.Unmarshal(raw, &c); err != nil {
+		return nil, err
+	}
+	if len(c.Pre) > 8 {
+		return nil, fmt.Errorf("history too long")
+	}
+	kde := &stats.KDE{}
+	for _, p := range c.Pre {
+		_, _, _, ppts, err := c12Configure(kde, p)
+		if err != nil {
+			return nil, fmt.Errorf("prelude stage: %v", err)
+		}
+		c12Exercise(kde, p, ppts)
+	}
+	if (c.KeepH || c.Overwrite) && len(c.Pre) == 0 {
+		return nil, fmt.Errorf("keeph/overwrite without a history")
+	}
+	h, xs, ws, pts, err := c12Configure(kde, c)
+	if err != nil {
+		return nil, err
+	}
+	bmin, bmax := float64(c.Bmin), float64(c.Bmax)
+	bc := bmin != 0 || bmax != 0
+	xmin, xmax := math.Inf(1), math.Inf(-1)
+	for _, x := range xs {
+		xmin, xmax = math.Min(xmin, x), math.Max(xmax, x)
+	}
+	callBounds := c.Bounds || c.First == 2
 	xs0 := append([]float64(nil), xs...)
 	var ws0 []float64
 	if ws != nil {
@@ -136,8 +216,6 @@ func c12Run(raw []byte) (*Line, error) {
 			l.I(0).F(v)
 		}
 	}
-
-	kde := &stats.KDE{Sample: sample, Kernel: c12Kernel(c.Kernel), Bandwidth: h, BoundaryMin: bmin, BoundaryMax: bmax}
 
 	type bres struct {
 		st                     int
@@ -297,6 +375,7 @@ func c12Run(raw []byte) (*Line, error) {
 	}
 	l.B(unmod && kde.Sample.Sorted == c.Sorted)
 	l.B(c.Sorted)
+	l.I(len(c.Pre))
 	return l, nil
 }
 
@@ -800,6 +879,245 @@ func c12OffsetCase(rng *rand.Rand, kernel int, lazy bool) c12Case {
 	return c
 }
 
+// ---------- object histories ----------
+
+func c12ConfOf(c c12Case) int {
+	bmin, bmax := float64(c.Bmin), float64(c.Bmax)
+	switch {
+	case bmin == 0 && bmax == 0:
+		return 0
+	case math.IsInf(bmax, 1):
+		return 1
+	case math.IsInf(bmin, -1):
+		return 2
+	}
+	return 3
+}
+
+// c12Refit recomputes boundaries (configuration conf) and points of c for its current sample,
+// with r the length scale of the kernel (the bandwidth, or the spread for a lazy one).
+func c12Refit(rng *rand.Rand, c c12Case, conf int, r float64) c12Case {
+	xs := fromF64s(c.Xs)
+	lo, hi, spread := c12Spread(xs)
+	bmin, bmax := c12Boundaries(rng, conf, lo, hi, spread, r)
+	if conf == 3 && (!(bmin < bmax) || r/(2*(bmax-bmin)) > 20) {
+		bmin, bmax = lo-giDyadic(r/8, 6), hi+r/2+giDyadic(r/8, 6)
+		if !(bmin < bmax) {
+			bmax = bmin + 1
+		}
+	}
+	if c.Kernel == 2 && conf != 0 { // delta kernel with reflection: keep the image arithmetic exact
+		if !math.IsInf(bmin, 0) {
+			bmin = math.Floor(bmin*8) / 8
+		}
+		if !math.IsInf(bmax, 0) {
+			bmax = math.Ceil(bmax*8) / 8
+		}
+	}
+	if bmin == 0 && bmax == 0 {
+		conf = 0
+	}
+	c.Bmin, c.Bmax = F64(bmin), F64(bmax)
+	pts := c12Points(rng, xs, r, bmin, bmax, conf != 0, 6)
+	if c.Kernel == 2 {
+		for j := range pts {
+			pts[j] = giDyadic(pts[j], 10)
+		}
+	}
+	var fin []float64
+	for _, p := range pts {
+		if !math.IsInf(p, 0) && !math.IsNaN(p) {
+			fin = append(fin, p)
+		}
+	}
+	c.Pts = toF64s(fin)
+	return c
+}
+
+// c12Histories: ONE *KDE value is configured, evaluated, then has one or more of its fields
+// changed (Bandwidth, Kernel, BoundaryMin/Max, Sample: a different one, or the same backing
+// array overwritten) and is evaluated again, ...  Stage j is emitted as a case of its own whose
+// prelude is stages 0..j-1: every observation of every stage is compared with the model of the
+// configuration current at that moment.  The only documented state is the lazy fill of a zero
+// Bandwidth (KeepH stages keep the filled value).
+func c12Histories(rng *rand.Rand, count int, emit func(c interface{})) {
+	for hno := 0; hno < count; hno++ {
+		n := 2 + rng.Intn(9)
+		kernel := rng.Intn(3)
+		conf := rng.Intn(4)
+		cur := c12Random(rng, kernel, conf, n)
+		// small dyadic data keeps every stage cheap and the delta kernel exact
+		xs := fromF64s(cur.Xs)
+		for j := range xs {
+			xs[j] = giDyadic(xs[j], 6)
+		}
+		if cur.Sorted {
+			sort.Float64s(xs) // (rounding keeps the order; ties stay in place)
+		}
+		cur.Xs = toF64s(xs)
+		_, _, spread := c12Spread(xs)
+		lazy0 := hno%4 == 0 && !cur.HasW && !c12ScottDegenerate(xs)
+		if lazy0 {
+			cur.H = 0
+			cur = c12Refit(rng, cur, conf, spread/2)
+		} else {
+			cur.H = F64(giDyadic(float64(cur.H), 6))
+			if !(float64(cur.H) > 0) {
+				cur.H = F64(spread / 4)
+			}
+			cur = c12Refit(rng, cur, conf, float64(cur.H))
+		}
+		cur.Quad, cur.Bounds = false, hno%3 == 0 && !(kernel == 2 && spread == 0)
+		if cur.First == 2 && !cur.Bounds {
+			cur.First = 0
+		}
+		if _, _, _, err := c12Check(cur, float64(cur.H)); err != nil || c12Outside(cur) {
+			continue
+		}
+		stages := []c12Case{cur}
+		nst := 2 + rng.Intn(3)
+		for st := 1; st <= nst; st++ {
+			nx := stages[st-1]
+			nx.Pre, nx.KeepH, nx.Overwrite = nil, false, false
+			xs := fromF64s(nx.Xs)
+			_, _, spread := c12Spread(xs)
+			wasLazy := float64(nx.H) == 0
+			r := float64(nx.H)
+			if wasLazy {
+				r = spread / 2
+			}
+			cf := c12ConfOf(nx)
+			kind := rng.Intn(6)
+			if wasLazy && st == 1 {
+				kind = 5
+			}
+			switch kind {
+			case 0: // Bandwidth
+				f := []float64{0.25, 0.5, 2, 3}[rng.Intn(4)]
+				r = giDyadic(r*f, 8)
+				if !(r > 0) {
+					r = 1
+				}
+				nx.H = F64(r)
+			case 1: // Kernel
+				nx.Kernel = (nx.Kernel + 1 + rng.Intn(2)) % 3
+				if wasLazy {
+					nx.H = F64(giDyadic(r, 8))
+				}
+			case 2: // boundaries
+				cf = (cf + 1 + rng.Intn(3)) % 4
+				if wasLazy {
+					nx.H = F64(giDyadic(r, 8))
+				}
+			case 3: // Sample: same backing array overwritten with other values
+				sh := giDyadic(spread/4+1, 4)
+				for j := range xs {
+					xs[j] = xs[j] + sh*float64(1+j%3)
+				}
+				if nx.Sorted {
+					sort.Float64s(xs)
+				}
+				nx.Xs = toF64s(xs)
+				nx.Overwrite = true
+				if wasLazy {
+					nx.H = F64(giDyadic(r, 8))
+				}
+			case 4: // Sample: a different one (other length, other weights)
+				m := 1 + rng.Intn(10)
+				ys := c12Values(rng, m)
+				for j := range ys {
+					ys[j] = giDyadic(ys[j], 6)
+				}
+				nx.Sorted = false
+				nx.Xs = toF64s(ys)
+				nx.HasW, nx.Ws = false, nil
+				if rng.Intn(2) == 0 {
+					nx.HasW, nx.Ws = true, toF64s(c12Weights(rng, m))
+				}
+				_, _, sp := c12Spread(ys)
+				r = giDyadic(sp/3+0.25, 6)
+				nx.H = F64(r)
+			default: // keep the Bandwidth the object holds (after a lazy fill: the filled value), change the kernel
+				nx.KeepH = true
+				nx.Kernel = (nx.Kernel + 1) % 3
+				if !wasLazy {
+					nx.H = stages[st-1].H
+				}
+			}
+			nx = c12Refit(rng, nx, cf, r)
+			nx.First = rng.Intn(3)
+			nx.Bounds = rng.Intn(3) == 0
+			nx.Quad = nx.Kernel != 2 && rng.Intn(3) == 0 && !nx.KeepH
+			lo, hi, _ := c12Spread(fromF64s(nx.Xs))
+			if nx.Kernel == 2 && lo == hi {
+				nx.Bounds = false
+			}
+			if nx.First == 2 && !nx.Bounds {
+				nx.First = 0
+			}
+			hv := float64(nx.H)
+			if nx.KeepH {
+				hv = r // the value the object holds is Scott's: positive, at most 1.06 ranges
+			}
+			if _, _, _, err := c12Check(nx, hv); err != nil || c12Outside(nx) || !(hv > 0) {
+				break
+			}
+			stages = append(stages, nx)
+		}
+		for j := 1; j < len(stages); j++ {
+			c := stages[j]
+			c.Pre = append([]c12Case(nil), stages[:j]...)
+			emit(c)
+		}
+	}
+}
+
+// c12HistoryGrid: every kernel x boundary configuration x weighted as the SECOND configuration of
+// one KDE object whose first configuration had another kernel, bandwidth, boundary setting and
+// (every other case) sample contents in the same backing array.
+func c12HistoryGrid(emit func(c interface{})) {
+	inf := math.Inf(1)
+	bounds := func(conf int) (F64, F64) {
+		switch conf {
+		case 1:
+			return 0.5, F64(inf)
+		case 2:
+			return F64(-inf), 4.5
+		case 3:
+			return 0.5, 4.5
+		}
+		return 0, 0
+	}
+	var pts []float64
+	for q := -2; q <= 20; q += 2 {
+		pts = append(pts, float64(q)/4)
+	}
+	pts = append(pts, 0.5, 4.5, 1, 3)
+	i := 0
+	for kernel := 0; kernel < 3; kernel++ {
+		for conf := 0; conf < 4; conf++ {
+			for w := 0; w < 2; w++ {
+				i++
+				pre := c12Case{Xs: toF64s([]float64{1, 2, 4}), Kernel: (kernel + 1) % 3, H: 2, Pts: toF64s(pts[:6]), First: i % 2}
+				pre.Bmin, pre.Bmax = bounds((conf + 1) % 4)
+				c := c12Case{Xs: toF64s([]float64{1, 2, 4}), Kernel: kernel, H: 1, Pts: toF64s(pts), First: i % 3, Bounds: true, Quad: kernel != 2}
+				if i%2 == 0 {
+					pre.Xs = toF64s([]float64{1.5, 3, 3.5})
+					c.Overwrite = true
+				}
+				if w == 1 {
+					c.HasW, c.Ws = true, toF64s([]float64{1, 2.5, 0.5})
+				} else {
+					pre.HasW, pre.Ws = true, toF64s([]float64{2, 1, 1})
+				}
+				c.Bmin, c.Bmax = bounds(conf)
+				c.Pre = []c12Case{pre}
+				emit(c)
+			}
+		}
+	}
+}
+
 func c12Gen(tier string, rng *rand.Rand, emit func(c interface{})) {
 	thorough := tier == "thorough"
 	c12Thin = !thorough
@@ -814,6 +1132,13 @@ func c12Gen(tier string, rng *rand.Rand, emit func(c interface{})) {
 	// ---- deterministic feature grid (both tiers)
 	c12Grid(emit)
 	c12SortedGrid(emit)
+	// ---- object histories: one KDE value re-configured by field assignment and re-evaluated
+	nhist := 14
+	if thorough {
+		nhist = 150
+	}
+	c12HistoryGrid(emit)
+	c12Histories(rng, nhist, emit)
 	// ---- offset dimension (bandwidth rules, lazy bandwidth): |offset| up to 1e9 spreads
 	noff := 36
 	if thorough {
